@@ -166,13 +166,21 @@ def exec_case(ctx, r):
         cp, means, vars_ = r["changepoints"], r["means"], r["variances"]
         k = len(cp) + 1
         label = f"generate_changing_data(n={n}, changepoints={cp}, p={p}, seed={seed})"
-        st, out = call(generate_changing_data, n, list(cp), [np.array(m) for m in means], _lists(vars_), seed)
+        # the SAME argument objects are passed to both calls (identical arguments): they must not be
+        # modified by the generator
+        a_cp, a_means, a_vars = list(cp), [np.array(m) for m in means], _lists(vars_)
+        before = repr((a_cp, a_means, a_vars))
+        st, out = call(generate_changing_data, n, a_cp, a_means, a_vars, seed)
         if st != "ok":
             ctx.violation(sub, "valid-call-raised", f"{label}: {st}: {out}", r)
             return
         if not basic(out, n, p, label):
             return
-        st2, out2 = call(generate_changing_data, n, list(cp), [np.array(m) for m in means], _lists(vars_), seed)
+        st2, out2 = call(generate_changing_data, n, a_cp, a_means, a_vars, seed)
+        if repr((a_cp, a_means, a_vars)) != before:
+            ctx.violation(sub, "argument-modified", f"{label}: the caller's argument objects were modified: "
+                          f"{before[:120]} -> {repr((a_cp, a_means, a_vars))[:120]}", r)
+            return
         if st2 != "ok" or not out.equals(out2):
             ctx.violation(sub, "not-reproducible", f"{label}: two calls with the same seed differ", r)
             return
@@ -195,13 +203,18 @@ def exec_case(ctx, r):
         k = len(an)
         label = f"generate_anomalous_data(n={n}, anomalies={an}, p={p}, seed={seed})"
         args = lambda mm, vv: (n, [tuple(a) for a in an], mm, vv, seed)
-        st, out = call(generate_anomalous_data, *args([np.array(m) for m in means], _lists(vars_)))
+        same = args([np.array(m) for m in means], _lists(vars_))  # the same objects for both calls
+        before = repr(same)
+        st, out = call(generate_anomalous_data, *same)
         if st != "ok":
             ctx.violation(sub, "valid-call-raised", f"{label}: {st}: {out}", r)
             return
         if not basic(out, n, p, label):
             return
-        st2, out2 = call(generate_anomalous_data, *args([np.array(m) for m in means], _lists(vars_)))
+        st2, out2 = call(generate_anomalous_data, *same)
+        if repr(same) != before:
+            ctx.violation(sub, "argument-modified", f"{label}: the caller's argument objects were modified", r)
+            return
         if st2 != "ok" or not out.equals(out2):
             ctx.violation(sub, "not-reproducible", f"{label}: two calls with the same seed differ", r)
             return
